@@ -146,6 +146,69 @@ def ok_inline_cleanup_after_restore(early=False):
         cleanup()
 
 
+def ok_two_cycles(early=False):
+    # perturb and restore twice in one call: inline finally, then a helper
+    saved = dict((n, os.environ.get(n)) for n in ('V1', 'V2'))
+    try:
+        body(early)
+    finally:
+        for k, v in saved.items():
+            if v is None:
+                os.environ.pop(k, None)
+            else:
+                os.environ[k] = v
+    stage(4)
+    try:
+        os.environ['V1'] = 'again1'
+        stage(5)
+        os.environ['V2'] = 'again2'
+        stage(6)
+    finally:
+        _restore(saved)
+    stage(7)
+
+
+def ok_three_cycles_cm(early=False):
+    for n in (10, 20, 30):
+        with Guard(('V1', 'V2')):
+            os.environ['V2'] = 'cycle%d' % n
+            stage(n)
+            os.environ.pop('V1', None)
+            stage(n + 1)
+        stage(n + 2)
+    if early:
+        fail_early()
+
+
+def bad_second_cycle_straight_line(early=False):
+    saved = dict((n, os.environ.get(n)) for n in ('V1', 'V2'))
+    try:
+        body(early)
+    finally:
+        _restore(saved)
+    stage(4)
+    os.environ['V1'] = 'again1'
+    stage(5)
+    os.environ['V2'] = 'again2'
+    stage(6)
+    _restore(saved)
+
+
+def bad_straight_line_between_cycles(early=False):
+    for n in (10, 20, 30):
+        saved = dict((k, os.environ.get(k)) for k in ('V1', 'V2'))
+        try:
+            os.environ['V1'] = 'c%d' % n
+            os.environ['V2'] = 'c%d' % n
+            stage(n)
+        finally:
+            _restore(saved)
+        if n == 20:
+            os.environ['V1'] = 'late'
+            stage(n + 1)
+            _restore(saved)
+
+
 def bad_cleanup_before_restore(early=False):
     saved = dict((n, os.environ.get(n)) for n in ('V1', 'V2'))
     try:
@@ -212,10 +275,13 @@ def main(argv=None):
                                 os.environ[k] = v
                     reset()
                     m, outcome, before, after = inject.run_monitored(lambda: fn(early is True), ('V1', 'V2'))
-                    r, still_open = inject.admissibility(m)
+                    r, tblocked, twins, still_open = inject.fault_windows(m)
+                    r_single = inject.admissibility(m)[0]
+                    assert r >= r_single, (name, r, r_single)
                     win = min((mu['at'] for mu in m.mutations if mu.get('cleanup') is None), default=None)
                     rec_leak = inject.env_diff(before, after)
-                    adm = [e for e in m.events[:r] if e['adm']]
+                    adm = [e for e in m.events[:r] if e['adm'] and not any(lo <= e['i'] < hi for lo, hi in tblocked)]
+                    later = len([e for e in adm if e['i'] >= r_single])
                     flagged = inwin = 0
                     for e in adm:
                         for exc, when in (('OSError(EIO)', 'entry'), ('RuntimeError', 'entry'),
@@ -239,15 +305,18 @@ def main(argv=None):
                     good = name.startswith('ok_')
                     if good:
                         ok = flagged == 0 and not rec_leak
-                    elif early is True or (name == 'bad_only_v1' and state['V2'] == 'new2'):
+                    elif ((early is True and 'cycle' not in name) or (name == 'bad_only_v1' and state['V2'] == 'new2')
+                          or (name == 'bad_second_cycle_straight_line' and early is not False)):
                         ok = True          # nothing was (visibly) perturbed: nothing can leak
                     else:
                         ok = flagged > 0 or bool(rec_leak)
+                    if 'cycle' in name and (early is False or name == 'ok_three_cycles_cm'):
+                        ok = ok and later > 0      # the later cycles must be reached by fault points
                     if not ok:
                         failures += 1
-                    print('%-4s %-26s early=%-5s state=%-28s events=%3d r=%3d admissible=%2d in-window=%2d '
-                          'flagged=%2d recording-leak=%s' % ('ok' if ok else 'FAIL', name, early, state,
-                                                             m.n, r, len(adm), inwin, flagged, bool(rec_leak)))
+                    print('%-4s %-30s early=%-5s state=%-28s events=%3d r=%3d admissible=%2d (later cycles %2d) '
+                          'in-window=%2d flagged=%2d recording-leak=%s' % ('ok' if ok else 'FAIL', name, early, state,
+                                                             m.n, r, len(adm), later, inwin, flagged, bool(rec_leak)))
         os.environ.clear()
         os.environ.update(base)
     finally:
